@@ -124,6 +124,7 @@ class MTDriver(driver.Driver):
         self.ended = False
         self.down = False
         self.hidden = set()     # jobs of the batch being executed that have not come into existence yet
+        self.cmd_rng = random.Random(zlib.crc32(repr(a[3] if len(a) > 3 else 0).encode()))
 
     # ---- projection
     def _jid(self, key):
@@ -138,7 +139,8 @@ class MTDriver(driver.Driver):
         pool = {}
         for t in sp["pool"]:
             pool[f"{t['id'][0]}.{t['id'][1]}"] = {
-                "st": t["st"], "rh": t["rh"], "queued": t["queued"], "held": t["held"], "outs": sorted(t["outs"]),
+                "st": t["st"], "rh": t["rh"], "queued": t["queued"], "held": t["held"], "manual": bool(t["manual"]),
+                "outs": sorted(t["outs"]),
                 "sat": sorted(t["sat"]), "sub": t["sub"], "efail": t["etry"], "sfail": t["stry"]}
         cmds, acks = [], []
         pending = list(self.pool.pending) if self.pool is not None else []
@@ -172,7 +174,8 @@ class MTDriver(driver.Driver):
             fut[name] = instrument._interval_int(tdef.max_future_prereq_offset) or 0
         rb = None if self.down else getattr(schd.pool, "_prev_runahead_base_point", None)
         stop = sp["stop_point"]
-        return {"tohold": sorted(sp["tasks_to_hold"]), "holdpt": sp["hold_point"], "stop": stop,
+        trig = [] if self.down else sorted(instrument.tid(it) for it in schd.pool.tasks_to_trigger_now)
+        return {"tohold": sorted(sp["tasks_to_hold"]), "holdpt": sp["hold_point"], "stop": stop, "trig": trig,
                 "pool": pool, "rhl": sp["rhlimit"], "rhbase": TR.pt(rb) if rb is not None else None, "q": sp["queues"], "cmds": sorted(cmds), "acks": sorted(acks),
                 "jobs": jobs, "net": net, "stopped": self.stopped, "futseen": fut,
                 "maxfut": 0 if self.down else (instrument._interval_int(schd.pool.max_future_offset) or 0)}
@@ -222,7 +225,21 @@ class MTDriver(driver.Driver):
             self.boundary("Deliver", self._jid(key))
 
     # ---- operator commands (executed by process_command_queue)
+    async def cmd(self, name, **kw):
+        """tasks=["@pool"] stands for one task that is in the pool when the command is issued."""
+        if kw.get("tasks") == ["@pool"]:
+            ids = sorted(it.identity for it in self.schd.pool.get_tasks())
+            if not ids:
+                return None
+            kw = dict(kw, tasks=[self.cmd_rng.choice(ids)])
+        return await super().cmd(name, **kw)
+
+    def on_cmd_start(self, name, args):
+        self.pool_at_cmd = {it.identity for it in self.schd.pool.get_tasks()}
+        self.depth += 1          # the command is one step of the model: nothing inside it is logged separately
+
     def on_cmd_done(self, name, args):
+        self.depth -= 1
         ids = []
         for tk in args.get("tasks") or []:
             try:
@@ -240,6 +257,12 @@ class MTDriver(driver.Driver):
             self.boundary("CmdReleaseHoldPoint")
         elif name == "stop" and args.get("cycle_point") is not None:
             self.boundary("CmdStopPoint", int(args["cycle_point"]))
+        elif (name == "force_trigger_tasks" and len(ids) == 1 and not args.get("flow")
+              and args["tasks"][0] in getattr(self, "pool_at_cmd", ())):
+            self.boundary("CmdTrigger", ids[0])
+        elif (name == "set" and len(ids) == 1 and not args.get("flow") and not args.get("prerequisites")
+              and len(args.get("outputs") or []) == 1 and args["tasks"][0] in getattr(self, "pool_at_cmd", ())):
+            self.boundary("CmdSetOut", [ids[0], args["outputs"][0]])
         else:
             self.boundary("CmdOther:" + name)
 
@@ -298,6 +321,7 @@ class MTDriver(driver.Driver):
         install()
         CUR = self
         restart = self.incarnation > 0
+        self.active = False          # (what start-up does is one step of the model: Restart)
         r = await super().boot()
         self.active = True
         self.down = False
@@ -314,7 +338,9 @@ class MTDriver(driver.Driver):
         self.boundary("StopNow")
 
 
-def command_plan(w, rng, n_iters=12):
+SET_OUTS = ["succeeded", "succeeded", "started", "failed", "x", "submitted", "expired"]
+
+def command_plan(w, rng, n_iters=12, manual=False):
     """A few single-target operator commands at random iterations (the ones the design model has)."""
     cl = []
     for _ in range(rng.randint(1, 4)):
@@ -333,8 +359,18 @@ def command_plan(w, rng, n_iters=12):
                 cl.append((it + rng.randint(1, 8), "release_hold_point", {}))
         elif r < 0.75:
             cl.append((it, "release_hold_point", {}))
-        else:
+        elif r < 0.85 or not manual:
             cl.append((it, "stop", {"mode": None, "cycle_point": str(rng.randint(w.icp, w.fcp))}))
+    if manual:
+        # cylc trigger / cylc set --out on a task that is in the pool at that moment
+        for _ in range(rng.randint(1, 3)):
+            it = rng.randint(1, n_iters)
+            if rng.random() < 0.6:
+                cl.append((it, "force_trigger_tasks", {"tasks": ["@pool"], "flow": []}))
+                if rng.random() < 0.3:
+                    cl.append((it, "force_trigger_tasks", {"tasks": ["@pool"], "flow": []}))
+            else:
+                cl.append((it, "set", {"tasks": ["@pool"], "flow": [], "outputs": [rng.choice(SET_OUTS)]}))
     plan = {"cmds": cl}
     if rng.random() < 0.5:
         # stop --now (with the scheduler's view in sync with the jobs) and restart
